@@ -18,7 +18,7 @@ from concurrent.futures import ThreadPoolExecutor, ProcessPoolExecutor
 from harness import tlc
 
 # the code as it is today: flip to 'TRUE' when the corresponding fix is committed (known_findings.json)
-FIX = {'FixPctCase': 'FALSE', 'FixIdnaFirst': 'FALSE', 'FixUserPct': 'FALSE'}
+FIX = {'FixPctCase': 'FALSE', 'FixIdnaFirst': 'FALSE', 'FixUserPct': 'FALSE', 'FixUrlEager': 'FALSE'}
 if os.environ.get('VERIF_URLNORM_FIX'):          # e.g. "FixPctCase,FixIdnaFirst" when checking a repaired worktree
     for _k in os.environ['VERIF_URLNORM_FIX'].split(','):
         if _k:
